@@ -222,10 +222,31 @@ func c18Gen(t *kernel.Tape, maxPkgs int) *svcSpec {
 						}
 						used[key] = true
 						bv := vers[cn][t.Choose(len(vers[cn]))]
-						if t.Bool(1, 4) {
+						if t.Bool(1, 4) || (dir != cn && t.Bool(1, 2)) {
 							bv = "9.9.9" // exists only inside the bundle
 						}
 						sv.Bundled = append(sv.Bundled, svcBundle{Path: append([]string(nil), path...), Name: cn, Version: bv, Deps: c18Deps(t, names, vers, i, 2)})
+						if dir != cn && t.Bool(1, 2) {
+							// the directory is an alias: whoever holds this
+							// node_modules usually depends on it under that alias
+							req := []string{"*", bv, "^" + strings.SplitN(bv, "-", 2)[0], ">=0.0.1", "^7.0.0"}[t.Choose(5)]
+							ad := svcDep{Name: dir, Req: "npm:" + cn + "@" + req}
+							holder := &sv.Deps
+							if d > 0 {
+								for bi := range sv.Bundled {
+									if strings.Join(sv.Bundled[bi].Path, "\x00") == strings.Join(path[:d], "\x00") {
+										holder = &sv.Bundled[bi].Deps
+									}
+								}
+							}
+							dup := false
+							for _, y := range holder.Deps {
+								dup = dup || y.Name == ad.Name
+							}
+							if !dup {
+								holder.Deps = append(holder.Deps, ad)
+							}
+						}
 					}
 				}
 				// the service lists bundles in no particular order
@@ -569,6 +590,9 @@ func (r *c18Recorder) begin(kind string, key resolve.VersionKey) (int, int, erro
 	t := r.s.CurTask()
 	r.ncalls[t]++
 	if r.ncalls[t] > r.maxCall {
+		if !r.s.IsAborted() {
+			r.s.SetNote(t, noteCap, int64(r.s.LiveTasks()))
+		}
 		r.s.Abort()
 	}
 	if r.s.IsAborted() {
@@ -872,6 +896,7 @@ func RunC18(t *kernel.Tape, o Opts) *Result {
 	ctx := context.Background()
 	refSig := map[resolve.VersionKey]string{}
 	refDesc := map[resolve.VersionKey]string{}
+	refCalls := map[resolve.VersionKey]int{}
 	for _, ops := range append(append([][]*c18Op(nil), programs...), epilogue) {
 		for _, op := range ops {
 			if op.Kind != "Resolve" {
@@ -892,6 +917,7 @@ func RunC18(t *kernel.Tape, o Opts) *Result {
 			} else {
 				refSig[op.Key] = uni.Signature(g, err)
 			}
+			refCalls[op.Key] = bc.n
 			refDesc[op.Key] = uni.Describe(g, err)
 		}
 	}
@@ -1016,6 +1042,20 @@ func RunC18(t *kernel.Tape, o Opts) *Result {
 	}
 	if s.Aborted || t.Over {
 		res.Status = "budget"
+		// an undisturbed resolution that reaches the cap on client calls as
+		// the last live task, where the reference needed less than a
+		// hundredth of it, does not terminate (see RunC05)
+		for i := 0; i < ntasks && !t.Over; i++ {
+			j := int(s.Note(i, noteOp))
+			if s.Note(i, noteCap) != 1 || s.Note(i, noteFired) != 0 || j < 1 || j > len(programs[i]) {
+				continue
+			}
+			if op := programs[i][j-1]; op.Kind == "Resolve" && refCalls[op.Key]*livelockFactor <= rec.maxCall {
+				res.Status = "ok"
+				res.Config = "npm-api/livelock"
+				violate(res, "livelock", "livelock:npm-api", 0, "task %d: %s made more than %d client calls without returning; resolving the same data in a LocalClient needs %d", i, op, rec.maxCall, refCalls[op.Key])
+			}
+		}
 		return res
 	}
 	// Once the faults have stopped: a few clean operations, one after the
